@@ -86,6 +86,9 @@ package metrics
 
 //@ func (mc *Checker) FailedMetric
 //@   property C09
+//@   records lastFailedDecision = res
+//@   records lastFailedPeer = pid
+//@   records lastFailedName = metric
 //@   let lw = mc.metrics.byName[metric][pid]
 //@   ensures [unexpired-never-failed] haskey(mc.metrics.byName, metric) && haskey(mc.metrics.byName[metric], pid) && winLatest[lw] != nil && !expiredAt(winLatest[lw], now) ==> !res
 //@   modifies nothing
@@ -138,3 +141,30 @@ package metrics
 //@   ensures [received-metric-is-the-latest] haskey(mtrs.byName, old(m.Name)) && haskey(mtrs.byName[old(m.Name)], old(m.Peer)) && winLatest[mtrs.byName[old(m.Name)][old(m.Peer)]] == m
 //@   at_call Window.Add assert [window-touched-under-the-store-lock] held(mtrs.mux)
 //@   modifies heap(Store), heap(api.Metric), heap(Window), winLatest
+
+// ---- the periodic check: an alert is raised only for a (peer, metric name) the failure decision just flagged, and
+// for exactly that peer and name ----
+//@ ghost var lastFailedDecision bool
+//@ ghost var lastFailedPeer peer.ID
+//@ ghost var lastFailedName string
+//@ func (mtrs *Store) MetricNames
+//@   opts trusted
+//@   modifies nothing
+//@ func (mtrs *Store) AllMetrics
+//@   opts trusted
+//@   modifies nothing
+//@ func (mc *Checker) CheckPeers
+//@   property C09
+//@   at_call Checker.alert assert [only-what-the-decision-flagged] lastFailedDecision && lastFailedPeer == pid && lastFailedName == metricName
+//@   at_call Checker.FailedMetric assert [decision-about-that-peer-and-name] arg_metric == metric.Name && pid == peer
+//@   modifies heap(Checker), heap(Store), lastFailedDecision, lastFailedPeer, lastFailedName
+//@ func (mc *Checker) CheckAll
+//@   property C09
+//@   at_call Checker.alert assert [only-what-the-decision-flagged] lastFailedDecision && lastFailedPeer == pid && lastFailedName == metricName
+//@   at_call Checker.FailedMetric assert [decision-about-that-peer-and-name] arg_metric == metric.Name && pid == metric.Peer
+//@   modifies heap(Checker), heap(Store), lastFailedDecision, lastFailedPeer, lastFailedName
+
+// the periodic loop itself (ticker, context): not verified
+//@ func (mc *Checker) Watch
+//@   opts trusted
+//@   modifies *
